@@ -32,7 +32,9 @@ LIVE = [("crcu_live", ["EventuallyInvoked", "BarrierReturns"])]
 def run(ctx):
     q = ctx.quick()
     if q:
-        cc.run_property(ctx, "C04", QUICK, NEG_QUICK, LIVE, nseeds=40, nscript=0, sc_tsos={s: (0, 1) for s in QUICK}, mc_workers=3, mc_timeout=900)
+        # crcu_bar_free (barrier racing with call_rcu_data_free): conformance only in the quick tier, its 1.5M-state TLC run is in the thorough tier
+        cc.run_property(ctx, "C04", QUICK + ["crcu_bar_free"], NEG_QUICK, LIVE, nseeds=40, nscript=0, sc_tsos={s: (0, 1) for s in QUICK + ["crcu_bar_free"]},
+                        mc_workers=3, mc_timeout=900, conf_only=("crcu_bar_free",))
         cc.real_flavor(ctx, "mb", ["crcu_bar1"], nseeds=15)
     else:
         cc.real_flavor(ctx, "mb", QUICK + ["crcu_bar_free", "crcu_bar_rt"], nseeds=150, tsos=(0, 1))
